@@ -50,6 +50,7 @@ def check(ctx):
     for o in got:
         ctx.ob("C13-R1", o.line, o.file, o.func, o.construct, o.verdict, o.why)
 
+    c08.no_state_between_calls(ctx, cf, "C13-R1")       # a table or buffer kept between calls makes an area depend on the calls before it
     # ---- R2 / R4 python side: shrake_rupley evaluated as a whole
     fn = ctx.py.func(SP, "shrake_rupley")
     _shrake_rupley_by_evaluation(ctx, cf)
@@ -192,7 +193,7 @@ def _shrake_rupley_by_evaluation(ctx, cf):
     F_, N_, G_ = 2, 5, 3
     var = lambda n_: Rat(Poly.var(n_))      # noqa: E731
 
-    def run(mode, ai, cr, gm=False, resid_=resid):
+    def run(mode, ai, cr, gm=False, resid_=resid, probe=None):
         residues = [Obj(index=k) for k in sorted(set(resid_))]
         by = {r_.index: r_ for r_ in residues}
         atoms = [Obj(index=i, element=Obj(symbol=e, radius=var("vdw_radius_attribute_of_" + e)), residue=by[resid_[i]]) for i, e in enumerate(elems)]
@@ -224,7 +225,7 @@ def _shrake_rupley_by_evaluation(ctx, cf):
             rec["out_obj"] = out
         ts = TenSym({"_ATOMIC_RADII": table}, models={"_geometry._sasa": kernel, "ensure_type": lambda ev, c: ev.ex(c.args[0]),
                                                      "deepcopy": lambda ev, c: dict(ev.ex(c.args[0])), "copy.deepcopy": lambda ev, c: dict(ev.ex(c.args[0]))})
-        r = ts.run_fn(fn, traj=traj, probe_radius=var("probe"), n_sphere_points=960, mode=mode, change_radii=cr, get_mapping=gm, atom_indices=ai)
+        r = ts.run_fn(fn, traj=traj, probe_radius=var("probe") if probe is None else probe, n_sphere_points=960, mode=mode, change_radii=cr, get_mapping=gm, atom_indices=ai)
         return ts, r, rec, traj
     n_cfg = 0
     for mode in ("atom", "residue"):
@@ -275,6 +276,16 @@ def _shrake_rupley_by_evaluation(ctx, cf):
                            "the value returned %s" % ("is not the (n_frames, n_groups) output" if not (isinstance(res, Ten) and res.shape == want.shape) else ts.first_difference(res, want)))
                 ctx.decide(rec["table"] == rec["table0"], "C13-R4", fn, SP, q, cfg_ + ": the module-level radii table is left as it was", "",
                            "_ATOMIC_RADII is modified in place (%s): change_radii leaks into later calls" % sorted(k for k in rec["table"] if rec["table"].get(k) != rec["table0"].get(k)))
+    # the values a caller may pass that are falsy in Python: probe_radius = 0 (van der Waals surface) and a changed radius of 0
+    for what, kw_, wantf in (("probe_radius = 0: radii are the table radii", dict(probe=Rat(Poly.const(0)), cr=None), lambda e: var("R_" + e)),
+                             ("change_radii={'C': 0}: carbon gets radius 0 + probe", dict(probe=None, cr={"C": Rat(Poly.const(0))}), lambda e: (Rat(Poly.const(0)) if e == "C" else var("R_" + e)) + var("probe"))):
+        try:
+            ts, r, rec, traj = run("atom", None, kw_["cr"], probe=kw_["probe"])
+            got = rec.get("at_call", {}).get("atom_radii")
+            ok = isinstance(got, Ten) and got.shape == (N_,) and all(ts.equal(x, wantf(elems[i])) for i, x in enumerate(got.data))
+            ctx.decide(ok, "C13-R4", fn, SP, q, what, "", "the radii handed to the kernel are %s: a zero was taken for 'not given'" % ([repr(x) for x in got.data] if isinstance(got, Ten) else got,))
+        except PUnsupported as e:
+            ctx.undecided("C13-R4", fn, SP, q, what, "not evaluable: %s" % e)
     # get_mapping=True returns (areas, mapping)
     try:
         ts, r, rec, traj = run("residue", None, None, gm=True)
